@@ -291,8 +291,11 @@ class C11(RS.StepProp):
         while len(out) < n:
             c = rand_pair(rng, reject=rng.random() < 0.12)
             if c is not None:
-                if rng.random() < 0.25:
+                r = rng.random()
+                if r < 0.25:
                     c['ctor'] = 'graph'
+                elif r < 0.4:
+                    c['ctor'] = 'dicts'
                 for lv in range(c.get('levels', 1)):
                     out.append(dict(c, level=lv))
         return out
@@ -315,6 +318,12 @@ class C11(RS.StepProp):
                         elements = re.findall(r"\{[^\}]+\}", text)
                         r = MoleculeResolver.from_graph(''.join(elements[1:]), read_cgsmiles(elements[0]),
                                                         last_all_atom=case['aa'], legacy=case['legacy'])
+                    elif case.get('ctor') == 'dicts':
+                        # ... and through the third one: base string + fragment graphs
+                        import re
+                        elements = re.findall(r"\{[^\}]+\}", text)
+                        dicts = MoleculeResolver.read_fragment_strings(elements[1:], last_all_atom=case['aa'])
+                        r = MoleculeResolver.from_fragment_dicts(elements[0], dicts, last_all_atom=case['aa'], legacy=case['legacy'])
                     else:
                         r = MoleculeResolver.from_string(text, last_all_atom=case['aa'], legacy=case['legacy'])
                 except Exception as exc:          # noqa: BLE001
@@ -369,7 +378,7 @@ class C11(RS.StepProp):
         tag = 'all-atom' if case['aa'] else 'coarse'
         if impl['orig'].get('exc'):
             return tag + ':original-not-resolvable'
-        tag += ':from_graph' if case.get('ctor') == 'graph' else ''
+        tag += {'graph': ':from_graph', 'dicts': ':from_fragment_dicts'}.get(case.get('ctor'), '')
         return '%s:%s%s%s' % (tag, 'level%d:' % case['level'] if case.get('level') else '', '+'.join(sorted(set(case.get('ops', ['corpus'])))),
                             ':virtual-before-real' if impl['class'] else '')
 
